@@ -113,12 +113,12 @@ Proof.
   - inversion H; subst. eapply kth_line_exn; eauto.
 Qed.
 
-Lemma new_wf k name n : k <> KBipartite -> 0 <= n -> gio_wf (mkIOG k name n 0 []).
+Lemma new_wf k name n : k <> GioBipartite -> 0 <= n -> gio_wf (mkIOG k name n 0 []).
 Proof. intros Hk Hn. unfold gio_wf. cbn. repeat split; auto; try lia. constructor. Qed.
 
 (* reader soundness, simple and directed kthlist: the accepted text is comment/blank lines, one size line,
    then rows with strictly increasing vertex; the graph has that size and exactly the listed edges *)
-Theorem kth_sound k text G : k <> KBipartite -> gio_read_kth k text = GOk G ->
+Theorem kth_sound k text G : k <> GioBipartite -> gio_read_kth k text = GOk G ->
   exists skips sl rest n,
     gt_lines text = skips ++ sl :: rest /\ Forall kth_skip skips /\ gio_kth_line (-1) sl = GOk (KISize n) /\
     io_kind G = k /\ io_n G = n /\ io_r G = 0 /\ gio_wf G /\
@@ -193,7 +193,7 @@ Proof.
   - inversion H; subst. eapply kth_line_exn; eauto.
 Qed.
 
-Lemma new_bip_wf name n r : 0 <= n -> 0 <= r -> gio_wf (mkIOG KBipartite name n r []).
+Lemma new_bip_wf name n r : 0 <= n -> 0 <= r -> gio_wf (mkIOG GioBipartite name n r []).
 Proof. intros Hn Hr. unfold gio_wf. cbn. split; [lia|]. split; [lia|]. split; [congruence|]. split; constructor. Qed.
 
 (* reader soundness for bipartite kthlist.  The edge characterisation needs the left vertices to be
@@ -201,7 +201,7 @@ Proof. intros Hn Hr. unfold gio_wf. cbn. split; [lia|]. split; [lia|]. split; [c
 Theorem kthb_sound_partial text G : gio_read_kthb text = GOk G ->
   exists skips sl rest n,
     gt_lines text = skips ++ sl :: rest /\ Forall kth_skip skips /\ gio_kth_line (-1) sl = GOk (KISize n) /\
-    io_kind G = KBipartite /\ io_n G + io_r G = n /\ gio_wf G /\
+    io_kind G = GioBipartite /\ io_n G + io_r G = n /\ gio_wf G /\
     (NoDup (map fst (kth_rows n rest)) ->
      forall a b, In (a, b) (io_edges G) <->
                  exists r v, In r (kth_rows n rest) /\ In v (snd r) /\ a = fst r /\ b = v - io_n G).
@@ -210,7 +210,7 @@ Proof.
   destruct (gio_kth_header (gt_lines text)) as [[n rest]|] eqn:Eh; [|discriminate]. cbn [gio_bind fst snd] in H.
   destruct (kth_header_ok _ _ _ Eh) as (skips & sl & Hls & Hs & Hl & Hn).
   destruct (gio_kthb_body n rest 1 n []) as [[lo d]|] eqn:Eb; [|discriminate]. cbn [gio_bind fst snd] in H.
-  destruct (gio_new KBipartite (gio_kth_name (gt_lines text)) (lo - 1) (n - lo + 1)) as [G0|] eqn:En; [|discriminate].
+  destruct (gio_new GioBipartite (gio_kth_name (gt_lines text)) (lo - 1) (n - lo + 1)) as [G0|] eqn:En; [|discriminate].
   cbn [gio_bind] in H. apply new_inv in En as (HL & HR & ->).
   pose proof (add_edges_wf _ _ _ (new_bip_wf _ _ _ HL HR) H) as Hwf.
   apply add_edges_inv in H as [Hok ->]. apply kthb_body_inv in Eb. subst d.
@@ -231,7 +231,7 @@ Proof.
   unfold gio_read_kthb. intros H. pose proof (lines_nonnil text) as Hne.
   destruct (gio_kth_header (gt_lines text)) as [[n rest]|e1] eqn:Eh; cbn [gio_bind fst snd] in H.
   - left. destruct (gio_kthb_body n rest 1 n []) as [[lo d]|e2] eqn:Eb; cbn [gio_bind fst snd] in H.
-    + destruct (gio_new KBipartite (gio_kth_name (gt_lines text)) (lo - 1) (n - lo + 1)) as [G0|e3] eqn:En; cbn [gio_bind] in H.
+    + destruct (gio_new GioBipartite (gio_kth_name (gt_lines text)) (lo - 1) (n - lo + 1)) as [G0|e3] eqn:En; cbn [gio_bind] in H.
       * eapply add_edges_exn; eauto.
       * inversion H; subst. eapply new_exn; eauto.
     + inversion H; subst. destruct (kth_header_ok _ _ _ Eh) as (skips & sl & Hls & _). rewrite Hls in Hne.
@@ -362,7 +362,7 @@ Qed.
 
 (* reader soundness: exactly one problem line "p edge n m", m edge lines, all after it, all valid;
    the graph has n vertices and exactly the edges of the edge lines *)
-Theorem dimacs_sound k text G : k <> KBipartite -> gio_read_dimacs k text = GOk G ->
+Theorem dimacs_sound k text G : k <> GioBipartite -> gio_read_dimacs k text = GOk G ->
   exists n m, dm_ppairs (gt_lines text) = [(n, m)] /\ Z.of_nat (length (dm_epairs (gt_lines text))) = m /\
     io_kind G = k /\ io_n G = n /\ io_r G = 0 /\ gio_wf G /\
     Forall (edge_ok G) (dm_epairs (gt_lines text)) /\
@@ -410,7 +410,7 @@ Proof.
   - apply IH in H. lia.
 Qed.
 
-Lemma entries_inv total m : forall s k G G' s', io_kind G = KBipartite -> k <= total ->
+Lemma entries_inv total m : forall s k G G' s', io_kind G = GioBipartite -> k <= total ->
   gio_matrix_entries s k total m G = GOk (G', s') ->
   exists bits, s = map MGood bits ++ s' /\ Z.of_nat (length bits) = total - k /\
     Forall (fun b => b = 0 \/ b = 1) bits /\ Forall (edge_ok G) (map (mcell m) (ones k bits)) /\
@@ -468,24 +468,24 @@ Qed.
 
 (* reader soundness: the integers of the non comment lines are exactly those of the canonical file of the graph *)
 Theorem matrix_sound text G : gio_read_matrix text = GOk G ->
-  gio_wf G /\ io_kind G = KBipartite /\ io_name G = [] /\
+  gio_wf G /\ io_kind G = GioBipartite /\ io_name G = [] /\
   gio_matrix_stream (gt_lines text) = map MGood (concat (matrix_rows G)).
 Proof.
   unfold gio_read_matrix. intros H.
   destruct (gio_matrix_stream (gt_lines text)) as [|[n|] s1]; try discriminate. cbn [gio_mpop gio_bind fst snd] in H.
   destruct s1 as [|[m|] s2]; try discriminate. cbn [gio_mpop gio_bind fst snd] in H.
-  destruct (gio_new KBipartite [] n m) as [G0|] eqn:En; [|discriminate]. cbn [gio_bind] in H.
+  destruct (gio_new GioBipartite [] n m) as [G0|] eqn:En; [|discriminate]. cbn [gio_bind] in H.
   apply new_inv in En as (Hn & Hm & ->).
-  destruct (gio_matrix_entries s2 0 (n * m) m (mkIOG KBipartite [] n m [])) as [[G' s']|] eqn:Ee; [|discriminate].
+  destruct (gio_matrix_entries s2 0 (n * m) m (mkIOG GioBipartite [] n m [])) as [[G' s']|] eqn:Ee; [|discriminate].
   cbn [gio_bind fst snd] in H. destruct s'; [|discriminate]. inversion H; subst G'. clear H.
   apply entries_inv in Ee as (bits & -> & Hlen & Hb & Hoks & ->); [|reflexivity|nia].
   cbn [io_kind io_edges] in *. rewrite app_nil_r.
-  split; [apply (with_edges_wf (mkIOG KBipartite [] n m [])) in Hoks; [|now apply new_bip_wf]; cbn [io_kind io_edges edge_norm] in Hoks;
+  split; [apply (with_edges_wf (mkIOG GioBipartite [] n m [])) in Hoks; [|now apply new_bip_wf]; cbn [io_kind io_edges edge_norm] in Hoks;
           rewrite map_id in Hoks; exact Hoks|].
   split; [reflexivity|]. split; [reflexivity|].
   unfold matrix_rows. cbn [gio_with_edges io_n io_r concat map app]. do 3 f_equal.
   rewrite <- flat_map_concat_map.
-  pose proof (flat_rows (fun u v => bitZ (gio_has_edge (gio_with_edges (mkIOG KBipartite [] n m []) (insert_all (map (mcell m) (ones 0 bits)) [])) u v)) m Hm (Z.to_nat n)) as FR.
+  pose proof (flat_rows (fun u v => bitZ (gio_has_edge (gio_with_edges (mkIOG GioBipartite [] n m []) (insert_all (map (mcell m) (ones 0 bits)) [])) u v)) m Hm (Z.to_nat n)) as FR.
   rewrite Z2Nat.id in FR by exact Hn. cbn [gio_with_edges io_kind io_name io_n io_r] in FR. rewrite FR. clear FR.
   replace (Z.to_nat n * Z.to_nat m)%nat with (length bits) by nia.
   rewrite (bits_ones bits 0 Hb) at 1. apply map_ext_in. intros j Hj. apply zseq_In in Hj. f_equal.
@@ -502,7 +502,7 @@ Proof.
   unfold gio_read_matrix. intros H.
   destruct (gio_matrix_stream (gt_lines text)) as [|[n|] s1]; try (now inversion H). cbn [gio_mpop gio_bind fst snd] in H.
   destruct s1 as [|[m|] s2]; try (now inversion H). cbn [gio_mpop gio_bind fst snd] in H.
-  destruct (gio_new KBipartite [] n m) as [G0|e1] eqn:En; cbn [gio_bind] in H; [|inversion H; subst; eapply new_exn; eauto].
+  destruct (gio_new GioBipartite [] n m) as [G0|e1] eqn:En; cbn [gio_bind] in H; [|inversion H; subst; eapply new_exn; eauto].
   destruct (gio_matrix_entries s2 0 (n * m) m G0) as [[G' s']|e2] eqn:Ee; cbn [gio_bind fst snd] in H.
   - destruct s'; now inversion H.
   - inversion H; subst. eapply entries_exn; eauto.
@@ -519,7 +519,7 @@ Theorem dag_accept hd f text G :
 Proof.
   unfold gio_read_graph. cbn [gio_supported gio_kind_of].
   destruct (negb (existsb (gio_fmt_eqb f) ([FKthlist; FGml] ++ (if hd then [FDot] else []) ++ [FDimacs]))); [split; [discriminate|intros [H _]; discriminate]|].
-  destruct (match f with FKthlist => gio_read_kth KDirected text | FDimacs => gio_read_dimacs KDirected text
+  destruct (match f with FKthlist => gio_read_kth GioDirected text | FDimacs => gio_read_dimacs GioDirected text
                     | FMatrix => gio_read_matrix text | _ => GRaise ENotModelled end) as [G1|e]; cbn [gio_bind].
   - rewrite <- is_dag_spec. split.
     + destruct (gio_is_dag G1) eqn:E; [|discriminate]. intros H. inversion H; subst. auto.
@@ -532,7 +532,7 @@ Theorem dag_reject hd f text G : gio_read_graph hd TDigraph f text = GOk G ->
 Proof.
   unfold gio_read_graph. cbn [gio_supported gio_kind_of].
   destruct (negb (existsb (gio_fmt_eqb f) ([FKthlist; FGml] ++ (if hd then [FDot] else []) ++ [FDimacs]))); [discriminate|].
-  destruct (match f with FKthlist => gio_read_kth KDirected text | FDimacs => gio_read_dimacs KDirected text
+  destruct (match f with FKthlist => gio_read_kth GioDirected text | FDimacs => gio_read_dimacs GioDirected text
                     | FMatrix => gio_read_matrix text | _ => GRaise ENotModelled end) as [G1|e]; cbn [gio_bind]; [|discriminate].
   intros H (u & v & Hin & Hle). inversion H; subst. destruct (gio_is_dag G) eqn:E; [|reflexivity].
   rewrite is_dag_spec in E. apply E in Hin. lia.
@@ -557,18 +557,18 @@ Proof.
   assert (Hkn : kth_name_ok (io_name G)) by now apply kth_name_ok_line.
   destruct t; cbn [gio_kind_of] in HK.
   - (* simple *)
-    assert (HnB : io_kind G <> KBipartite) by congruence.
+    assert (HnB : io_kind G <> GioBipartite) by congruence.
     destruct f, hd; table H; try discriminate; inversion H; subst text; clear H; table_goal.
     1,2: destruct (kth_roundtrip G Hwf HnB Hkn) as [nm E]; rewrite HK in E; rewrite E; cbn [gio_bind]; exists nm; now rewrite same_but_name_eq.
     1,2: destruct (dimacs_roundtrip G Hwf HnB Hname) as [nm E]; rewrite HK in E; rewrite E; cbn [gio_bind]; exists nm; now rewrite same_but_name_eq.
   - (* digraph *)
-    assert (HnB : io_kind G <> KBipartite) by congruence.
+    assert (HnB : io_kind G <> GioBipartite) by congruence.
     destruct f, hd; table H; try discriminate; inversion H; subst text; clear H; table_goal.
     1,2: destruct (kth_roundtrip G Hwf HnB Hkn) as [nm E]; rewrite HK in E; rewrite E; cbn [gio_bind]; exists nm; now rewrite same_but_name_eq.
     1,2: destruct (dimacs_roundtrip G Hwf HnB Hname) as [nm E]; rewrite HK in E; rewrite E; cbn [gio_bind]; exists nm; now rewrite same_but_name_eq.
   - (* dag *)
-    assert (HnB : io_kind G <> KBipartite) by congruence. specialize (Hdag eq_refl).
-    assert (Hd : forall nm, gio_is_dag (mkIOG KDirected nm (io_n G) (io_r G) (io_edges G)) = true) by (intros nm; exact Hdag).
+    assert (HnB : io_kind G <> GioBipartite) by congruence. specialize (Hdag eq_refl).
+    assert (Hd : forall nm, gio_is_dag (mkIOG GioDirected nm (io_n G) (io_r G) (io_edges G)) = true) by (intros nm; exact Hdag).
     destruct f, hd; table H; try discriminate; inversion H; subst text; clear H; table_goal.
     1,2: destruct (kth_roundtrip G Hwf HnB Hkn) as [nm E]; rewrite HK in E; rewrite E; cbn [gio_bind]; rewrite Hd; exists nm; now rewrite same_but_name_eq.
     1,2: destruct (dimacs_roundtrip G Hwf HnB Hname) as [nm E]; rewrite HK in E; rewrite E; cbn [gio_bind]; rewrite Hd; exists nm; now rewrite same_but_name_eq.
@@ -598,12 +598,12 @@ Proof. vm_compute. reflexivity. Qed.
 (* the same file without the blank line is fine *)
 Definition dimacs_noblank_text : gt_str := txt "p edge 2 1" ++ [gt_nl] ++ txt "e 1 2" ++ [gt_nl].
 Lemma dimacs_noblank_ok :
-  gio_read_graph true TSimple FDimacs dimacs_noblank_text = GOk (mkIOG KSimple [] 2 0 [(1, 2)]).
+  gio_read_graph true TSimple FDimacs dimacs_noblank_text = GOk (mkIOG GioSimple [] 2 0 [(1, 2)]).
 Proof. vm_compute. reflexivity. Qed.
 
 (* D8: a left vertex listed twice *)
 Definition kthb_dup_text : gt_str := txt "3" ++ [gt_nl] ++ txt "1 : 2 0" ++ [gt_nl] ++ txt "1 : 3 0" ++ [gt_nl].
-Lemma kthb_dup_accepts : gio_read_kthb kthb_dup_text = GOk (mkIOG KBipartite [] 1 2 [(1, 2)]).
+Lemma kthb_dup_accepts : gio_read_kthb kthb_dup_text = GOk (mkIOG GioBipartite [] 1 2 [(1, 2)]).
 Proof. vm_compute. reflexivity. Qed.
 
 (* full soundness statement for bipartite kthlist: every listed neighbour is an edge of the result *)
@@ -628,7 +628,7 @@ Lemma format_table_refuses hd t f text : existsb (gio_fmt_eqb f) (gio_supported 
 Proof. intros H. unfold gio_read_graph. rewrite H. reflexivity. Qed.
 
 (* a concrete instance: 12 vertices, isolated vertices, an edge between a one-digit and a two-digit vertex *)
-Definition g12d : iograph := mkIOG KDirected (txt "G") 12 0 [(2, 10); (9, 11)].
+Definition g12d : iograph := mkIOG GioDirected (txt "G") 12 0 [(2, 10); (9, 11)].
 Definition g12d_kth_text : gt_str :=
          txt "c G" ++ [gt_nl] ++ txt "12" ++ [gt_nl] ++
          txt "1 : 0" ++ [gt_nl] ++ txt "2 : 0" ++ [gt_nl] ++ txt "3 : 0" ++ [gt_nl] ++ txt "4 : 0" ++ [gt_nl] ++
